@@ -18,7 +18,7 @@ theorem combine_spec (C : PointOpsCorrect ops G den xc valid) (u1 u2 : ℤ) (Q :
     ∃ R, combine ops u1 Q u2 = .ok R ∧ valid R ∧ den R = u1 • G + u2 • den Q := by
   unfold combine
   split
-  · exact C.mulAddG u1 Q u2 hQ
+  · rename_i h; exact C.mulAddG h u1 Q u2 hQ
   · obtain ⟨A, hA, vA, dA⟩ := C.mulG u1
     obtain ⟨B, hB, vB, dB⟩ := C.mul u2 Q hQ
     obtain ⟨R, hR, vR, dR⟩ := C.add A B vA vB
